@@ -18,6 +18,8 @@ if ! $VGO build $RACE -tags verif -modfile="$W/go.mod" -overlay "$W/overlay.json
   cat "$W/build.log"; echo "INFRA: harness build failed (the repository no longer compiles under instrumentation)"; exit 2
 fi
 if [ "$MODE" = "--replay" ]; then
+  [ -n "$RACE" ] && export GORACE="log_path=$W/race halt_on_error=0 exitcode=0 history_size=5"
   "$W/vworker" replay "$ID" "$3"; exit $?
 fi
+if [ -n "$RACE" ]; then export GORACE="log_path=$W/race halt_on_error=0 exitcode=0 history_size=5"; fi
 "$W/vworker" master "$ID" "$MODE"
